@@ -7,7 +7,7 @@ HEAD = "import sys\nsys.path.insert(0, '/verif')\nfrom replay_lib.opt_native imp
 
 def INCLUDE(name):
     m = re.match(r"(C\d\d)\.", name)
-    return (m is not None and m.group(1) == "C04") or name.startswith("C07.update_opset_imports") or name.startswith("C07.apply.existing_initializer")
+    return (m is not None and m.group(1) == "C04") or name.startswith("C07.update_opset_imports") or name.startswith("C07.apply.existing_initializer") or name.startswith("C07.try_rewrite.opset_imports") or name.startswith("C07.apply_to_model.namefix")
 
 
 def replay(ob):
